@@ -48,14 +48,15 @@ PTR_INV = "invariant: cursor <= end of the raw-pointer cursor (established by ne
 
 def decode_fns(pc):
     fns = []
+    access_selfs = set((f.impl_self or "").split("<")[0] for f in pc.fns if c03.is_access_impl(f))      # incl. their inherent helpers
     for f in pc.fns:
         k = summ.fn_key(f)
         g = glue.group_of(k)
         s = f.impl_self or ""
         if g in ("de_entry", "de_core", "de_slice", "de_sliding", "de_reader", "de_crc"):
             fns.append(f)
-        elif f.dk == "AssocFn" and (c03.is_deser_self(s) or s.startswith("de::deserializer::SeqAccess<")
-                                    or s.startswith("de::deserializer::MapAccess<") or s.startswith("de::deserializer::Deserializer<")):
+        elif f.dk == "AssocFn" and (c03.is_deser_self(s) or c03.is_access_impl(f) or s.startswith("de::deserializer::Deserializer<")
+                                    or s.split("<")[0] in access_selfs):
             fns.append(f)
     return fns
 
@@ -122,14 +123,17 @@ def discharge_factory(F, helpers):
 
 
 def check_size_hint(run_, F, pc):
-    fs = [f for f in pc.fns if f.name == "size_hint" and (f.impl_self or "").startswith("de::deserializer::SeqAccess<")]
+    fs = [f for f in pc.fns if f.name == "size_hint" and c03.is_access_impl(f, ("SeqAccess",))]
     if len(fs) != 1:
         run_.bad("H", "SeqAccess::size_hint", "method not found")
         return
     f = fs[0]
-    eng = sym.Engine(F, max_visits=2)
+    eng = sym.Engine(F, max_visits=2, inline=lambda g, ev: g.crate == "postcard" and g.argc <= 2 and not g.impl_trait)
     s = ("P", ("param", 1, f.locals[1]["ty"]))
-    ln = ("init", ("F", s, "len"))
+    # the element count is the access object's integer field (whatever it is called)
+    adt_ = [a for a in pc.adts.values() if a.get("def") == (f.impl_self or "").split("<")[0]]
+    cnt = [fl["name"] for a in adt_ for v in a.get("variants", []) for fl in v.get("fields", []) if fl.get("ty") == "usize"]
+    ln = ("init", ("F", s, cnt[0] if len(cnt) == 1 else "len"))
     probs = []
     somes = 0
     for p in eng.run(f):
